@@ -10,7 +10,8 @@ EXPLANATION = (
     "releases the connection before re-raising, and release closes and forgets the connection; one 16-bit increment per request "
     "dominating the request message built from it; oneway neither reads nor writes a reply (client and server); every reply the "
     "server builds echoes the received sequence number and serializer; the retry loop is bounded and limited to "
-    "connection-closed/timeout; the receive filter raises before the body is read and the client accepts only MSG_RESULT. "
+    "connection-closed/timeout; the receive filter raises before the body is read and the client accepts only MSG_RESULT; a "
+    "released proxy reconnects before its next send; one thread per oneway request. "
     "Not decided: execution counts under fault scripts, what the transport delivers."
 )
 
